@@ -1,4 +1,5 @@
 import Walrus.Proofs.GcEmit
+import Walrus.Proofs.GcCode
 
 /-!
 # C02 (continued) — after the GC pass every section finds the indices it needs
@@ -45,6 +46,21 @@ theorem kept_type_has_an_index (g : GcInfo) (m : ModuleM) (tid : Nat) (hr : tid 
     (hu : ("y", tid) ∈ usedSet g) : (assoc (gcTyMap g m) tid).isSome = true :=
   gcTyMap_total g m tid hr hu
 
+/-- **after GC, every entity operand of every instruction of every kept function has an emitted
+    index** in the maps its body is emitted with (`mapsOf`: the maps of `emitCodeWith`): functions,
+    tables, memories, globals, data and element segments, the types of `call_indirect` and of block
+    types.  Together with `after_gc_every_section_emits` this is the statement "no entity that is
+    still referenced is left without an emitted index" for the whole module.  (That the code
+    section's *structure* then emits — branch targets resolve, the traversal terminates — is the
+    C03 theorem for parsed bodies plus exact prediction.) -/
+theorem after_gc_every_body_operand_has_an_index (m : ModuleM) (g : GcInfo) (hg : mkGcInfo m = some g)
+    (hlen : m.code.length = m.funcs.length) (hw : gcWF g = true) (f : Nat) (pf : ParsedFunc)
+    (hloc : ¬ f < g.nif) (hpf : g.pfs[f - g.nif]? = some pf) (hf : ("f", f) ∈ usedSet g)
+    (lmap : List (Nat × Nat)) (y : Ent) (hy : y ∈ refsOfBody pf.seqs)
+    (hty : y.1 = "y" → y.2 < (distinctSigs m.sigs).length) :
+    ((mapsOf (codeOf m) g.pfs (gcKeep g m) lmap).get y.1 y.2).isSome = true :=
+  gc_body_operands_have_indices m g hg hlen hw f pf hloc hpf hf lmap y hy hty
+
 -- non-vacuity: a module with an export, a start function, an imported and a local global, an active
 -- data and element segment satisfies the hypotheses, and the model's GC round trip answers
 def sample : ModuleM :=
@@ -58,6 +74,9 @@ def sample : ModuleM :=
              ([], [(⟨"End", []⟩, 0)])] }
 
 example : (mkGcInfo sample).map gcWF = some true := by decide
+-- the body of local function 2 (index 1 among the imports-first functions … here f = 1) names global 1
+example : (mkGcInfo sample).map (fun g => (g.pfs.map fun pf => (refsOfBody pf.seqs).filter (·.1 ≠ "y"))) =
+    some [[("g", 1)], []] := by decide
 example : (gcRoundTrip sample).map (fun o => (o.imports.length, o.funcs.length, o.globals.length, o.elems.length, o.datas.length)) =
     some (2, 2, 1, 1, 1) := by decide
 
